@@ -443,7 +443,11 @@ func runC01(c *Ctx) error {
 			if err != nil {
 				return err
 			}
-			progs = append(progs, GoProg{Src: string(b)})
+			gp := GoProg{Src: string(b)}
+			if first := strings.SplitN(gp.Src, "\n", 2)[0]; strings.HasPrefix(first, "// imports: ") {
+				gp.Imports = strings.Fields(strings.TrimPrefix(first, "// imports: "))
+			}
+			progs = append(progs, gp)
 			feats = append(feats, map[string]bool{"corpus-" + strings.TrimSuffix(filepath.Base(f), ".go"): true})
 		}
 		if err := c.goDiff("go-toolchain-corpus", progs, feats); err != nil {
